@@ -53,7 +53,12 @@ def fresh_result(ctx, rule: str, func: str, what: str) -> None:
             ctx.unk(rule, f"{func} is wrapped by the decorator @{d}", where, f"what the wrapper returns is not modelled; whether {what} is allocated per call is not decided")
             return
     s = w.eff.summaries[func]
-    shared = sorted(n for n in s.ret if n[0] == "G" and n[2] == 0)
+    from .effects import IMM_ANNOT, IMM_TUPLE_ANNOT
+    ann = core.src(fi.node.returns).strip("'\"") if fi.node.returns is not None else ""
+    imm_result = ann in IMM_ANNOT or ann in IMM_TUPLE_ANNOT
+    # the returned value is a module-level object or a component of one (`return TABLE[key]`), and the declared result type is
+    # not an immutable one
+    shared = sorted((n for n in s.ret if n[0] == "G" and (n[2] == 0 or (not imm_result and ann))), key=lambda n: (n[2], str(n)))
     if shared:
         ctx.bad(rule, f"{func} returns the shared object {shared[0][1]}", where,
                 f"{what} is handed out by reference: a caller that edits it changes what every later call returns")
